@@ -129,12 +129,49 @@ fn scenario(clone_at: usize) -> Result<(), String> {
     Ok(())
 }
 
+/// clears interleaved with staged writes: after `clear_table` the table is the empty map, whatever was stored and
+/// whatever was staged but not merged yet (Database::clear_table drops pending writes), also when the table held no row
+/// at the time of the clear (never populated, or cleared twice in a row)
+fn clear_scenario(populate_first: bool, second_clear: bool) -> Result<(), String> {
+    let mut db = Database::new();
+    let t = db.add_table(table(), std::iter::empty(), std::iter::empty());
+    let mut model: Model = BTreeMap::new();
+    if populate_first {
+        db.new_buffer(t).stage_insert(&[v(1), v(10), v(0)]);
+        db.merge_all();
+        model.insert(1, (10, 0));
+        check(&db, t, &model, "populated")?;
+    }
+    db.new_buffer(t).stage_insert(&[v(2), v(20), v(1)]);
+    db.new_buffer(t).stage_remove(&[v(1)]);
+    db.clear_table(t);
+    model.clear();
+    if second_clear {
+        db.new_buffer(t).stage_insert(&[v(3), v(30), v(2)]);
+        db.clear_table(t);
+    }
+    db.merge_all();
+    check(&db, t, &model, "after stage; clear_table; merge")?;
+    // the table keeps working as a map afterwards
+    db.new_buffer(t).stage_insert(&[v(4), v(11), v(3)]);
+    db.merge_all();
+    model.insert(4, (11, 3));
+    check(&db, t, &model, "insert after clear")
+}
+
 fn main() {
+    for (populate_first, second_clear) in [(true, false), (false, false), (true, true), (false, true)] {
+        if let Err(e) = clear_scenario(populate_first, second_clear) {
+            println!("FAILING-INPUT: history {}stage ins(2,20) del(1); clear_table{}; merge: {e}",
+                if populate_first { "ins(1,10) merge; " } else { "" }, if second_clear { "; stage ins(3,30); clear_table" } else { "" });
+            std::process::exit(1);
+        }
+    }
     for clone_at in 0..7usize {
         if let Err(e) = scenario(clone_at) {
             println!("FAILING-INPUT: history ins(1,10) ins(2,20) ins(1,11) del(2) ins(3,30) ins(2,21), clone before merging step {clone_at}: {e}");
             std::process::exit(1);
         }
     }
-    println!("no failing input among 7 scenarios");
+    println!("no failing input among 7 + 4 scenarios");
 }
